@@ -27,7 +27,9 @@ from .. import common, distwork
 from ..gen import comm as G
 
 THEOREMS = ["Pt.Dist.diagnose_sound", "Pt.Dist.diagnose_complete", "Pt.Dist.violated_exact",
-            "Pt.Dist.cyclic_exact", "Pt.Dist.acyclic_no_cycle"]
+            "Pt.Dist.cyclic_exact", "Pt.Dist.acyclic_no_cycle",
+            "Pt.Dist.diagnose_partition_exact", "Pt.Dist.diagnose_partition_sound",
+            "Pt.Dist.diagnose_partition_complete"]
 
 DIAG_CLASSES = {"NotImplementedError", "DuplicateSendError", "DuplicateRecvError", "CycleError",
                 "MissingRecvError", "MissingSendError"}
